@@ -284,7 +284,7 @@ func cmdCheck(args []string) int {
 			for i, f := range st.Findings {
 				if i < 8 {
 					mj, _ := json.Marshal(f.Model)
-					fmt.Fprintf(os.Stderr, "   finding: %s known=%q %s\n      decisions=%v\n", f.Msg, f.KnownID, mj, f.Decisions)
+					fmt.Fprintf(os.Stderr, "   finding: %s known=%q %s\n      decisions=%v\n      stack=%s\n", f.Msg, f.KnownID, mj, f.Decisions, f.Stack)
 				}
 			}
 		}
